@@ -261,6 +261,10 @@ impl<'tcx> Dumper<'tcx> {
                     if let Ok(i) = s.try_to_scalar_int() {
                         let _ = write!(o, ",\"int\":{}", i.to_bits(i.size()));
                     }
+                } else if let Some(v) = ct.try_to_value() {
+                    if let Some(b) = v.try_to_raw_bytes(tcx) {
+                        let _ = write!(o, ",\"str\":{}", jbytes(b));
+                    }
                 }
             }
         }
